@@ -133,7 +133,7 @@ def generators(tier, seed):
 
 
 def plan(tier, seed):
-    return [dict(key="gen/" + g["label"], gen=g["label"], seed=seed, tier=tier, cost=5) for g in generators(tier, seed)] + [dict(key="scaling", gen="scaling", seed=seed, tier=tier, cost=3)]
+    return [dict(key="gen/" + g["label"], gen=g["label"], seed=seed, tier=tier, cost=5) for g in generators(tier, seed)] + [dict(key="scaling", gen="scaling", seed=seed, tier=tier, cost=3), dict(key="unattached-points", gen="unattached", seed=seed, tier=tier, cost=3)]
 
 
 def run_scaling(case):
@@ -174,6 +174,70 @@ def run_scaling(case):
                 viol.append(dict(key=f"{key}/{sub}/duplicates", what="duplicate points in a generated mesh", observed=int(m.npoints - len(np.unique(m.points / sc, axis=0))), expected=0, tol=0))
             nontrivial.append(sub)
     return dict(viol=viol, states=len(nontrivial), transitions=ntrans, traces=len(nontrivial), nontrivial=nontrivial, outcomes=[f"scaled-generators={len(nontrivial)}"], sample=dict(case=key, generators=list(gens)),
+                digest=f"{len(nontrivial)}/{len(viol)}", capped=False)
+
+
+def run_unattached(case):
+    """meshes that carry points without cells (an added centre point of a constraint, the meshes of a container sharing one
+    point array, cropped cells) at the start / in the middle / at the END of the point array: order conversion and mid-point
+    insertion keep the vertices and the connectivity of the vertices, insert centroids, keep volume and orientation and leave
+    the unattached points unattached"""
+    import felupe as fem
+
+    key = case["key"]
+    viol, nontrivial = [], []
+    ntrans = 0
+
+    def bad(sub, what, obs, exp, tol=0):
+        viol.append(dict(key=f"{key}/{sub}", what=what, observed=obs, expected=exp, tol=tol))
+
+    bases = {"quad": fem.Rectangle(b=(2.0, 1.0), n=(3, 2)), "hexahedron": fem.Cube(b=(2.0, 1.0, 1.0), n=(3, 2, 2)),
+             "triangle": fem.Rectangle(b=(2.0, 1.0), n=(3, 2)).triangulate(), "tetra": fem.Cube(b=(2.0, 1.0, 1.0), n=(3, 2, 2)).triangulate()}
+    opsets = {"quad": ["add_midpoints_edges", "add_midpoints_faces", "convert2", "convert2-faces"], "hexahedron": ["add_midpoints_edges", "add_midpoints_faces", "add_midpoints_volumes", "convert2", "convert2-all"],
+              "triangle": ["add_midpoints_edges", "add_midpoints_faces", "convert2"], "tetra": ["add_midpoints_edges", "add_midpoints_volumes", "convert2"]}
+    for ct, base in bases.items():
+        d = base.dim
+        far = np.array([[5.0, 6.0, 7.0][:d], [-3.0, 2.5, 1.5][:d], [4.0, -4.0, 0.5][:d]])
+        variants = {}
+        for k in (1, 3):
+            variants[f"{k} trailing"] = fem.Mesh(np.vstack([base.points, far[:k]]), base.cells, base.cell_type)
+            variants[f"{k} leading"] = fem.Mesh(np.vstack([far[:k], base.points]), base.cells + k, base.cell_type)
+        variants["cropped cells"] = fem.Mesh(base.points, base.cells[: max(1, base.ncells // 2)], base.cell_type)
+        cont = fem.MeshContainer([base, base.translate(3.0, axis=0)], merge=True)
+        variants["container mesh 0"] = cont.meshes[0]
+        variants["container mesh 1"] = cont.meshes[1]
+        for vlab, m in variants.items():
+            v0 = measure(m)
+            un0 = np.setdiff1d(np.arange(len(m.points)), np.unique(m.cells))
+            for oname in opsets[ct]:
+                sub = f"{ct}/{vlab}>{oname}"
+                try:
+                    if oname == "convert2":
+                        new = m.convert(order=2)
+                    elif oname == "convert2-faces":
+                        new = m.convert(order=2, calc_midfaces=True)
+                    elif oname == "convert2-all":
+                        new = m.convert(order=2, calc_midfaces=True, calc_midvolumes=True)
+                    else:
+                        new = getattr(m, oname)()
+                except Exception as ex:  # noqa
+                    bad(sub + "/exception", "operation raised on a valid mesh with unattached points", repr(ex)[:160], "a mesh")
+                    continue
+                ntrans += 1
+                nv = m.cells.shape[1]
+                if not np.array_equal(new.cells[:, :nv], m.cells) or not np.array_equal(new.points[: len(m.points)], m.points):
+                    bad(sub + "/vertices", "vertices / vertex connectivity changed by inserting mid-points", "changed", "unchanged")
+                    continue
+                _midpoint_check(bad, sub, m, new)
+                v1 = measure(new)
+                if v0 is not None and v1 is not None:
+                    if abs(v1[0] - v0[0]) > 1e-12 * max(abs(v0[0]), 1.0) or v1[1] <= 0:
+                        bad(sub + "/volume", "covered volume / orientation after inserting mid-points", list(v1[:2]), list(v0[:2]), 1e-12)
+                un1 = np.setdiff1d(np.arange(len(new.points)), np.unique(new.cells))
+                if not np.array_equal(un1, un0):
+                    bad(sub + "/unattached", "points without cells after the operation (the inserted points are all used, the unattached ones stay)", un1.tolist()[:8], un0.tolist()[:8])
+                nontrivial.append(sub)
+    return dict(viol=viol, states=len(nontrivial), transitions=ntrans, traces=len(nontrivial), nontrivial=nontrivial, outcomes=[f"unattached-variants={len(nontrivial)}"], sample=dict(case=key),
                 digest=f"{len(nontrivial)}/{len(viol)}", capped=False)
 
 
@@ -322,6 +386,8 @@ def run(case):
     warnings.simplefilter("default")
     if case["gen"] == "scaling":
         return run_scaling(case)
+    if case["gen"] == "unattached":
+        return run_unattached(case)
     tier, seed = case["tier"], case["seed"]
     key = case["key"]
     gen = [g for g in generators(tier, seed) if g["label"] == case["gen"]][0]
